@@ -257,7 +257,7 @@ fn multisets(kinds: usize, size: usize, f: &mut dyn FnMut(&[usize])) {
 
 pub fn run(tier: Tier) -> Report {
     let rep = Report::new("C17", tier);
-    rep.set_rule("every multiset of <= K stream items over Q queries x T tracks x distances {.25,.5,1,2,None} (quick: 2x2, K=4; thorough: 3x3 K=4 and 2x2 K=6), plus streams in which queries and tracks share ONE id space {1,2,3} (every ordered pair q != t x distances {.25,.5,1}, K=4 quick / 5 thorough), every permutation of streams of <= 4 items (rotations, reversal and adjacent transpositions of the canonical order for 5-6 items), N in {1,2,3}, min_votes in {1,2}, max_distance in {.5,.75,1,1.5,2,10} (three of them equal to a distance of the menu: 'not exceeding' is decided at equality); TopN and BestFit judged against the counting rules (also on streams with 1..40 tracks per query, N up to 10), results of tie-free streams required identical across orders; VisualVoting and Hungarian voting judged structurally (Hungarian: weights {absent, 0 (gated out, the query still appears), .2, .5, .9}; plus 2x2 matrices over weights 5 and 14 millionths apart in every arrival order). Non-trivial = at least two items.");
+    rep.set_rule("every multiset of <= K stream items over Q queries x T tracks x distances {.25,.5,1,2,None} (quick: 2x2, K=4; thorough: 3x3 K=4 and 2x2 K=6), plus streams in which queries and tracks share ONE id space {1,2,3} (every ordered pair q != t x distances {.25,.5,1}, K=4 quick / 5 thorough), every permutation of streams of <= 4 items (rotations, reversal and adjacent transpositions of the canonical order for 5-6 items), N in {1,2,3}, min_votes in {1,2}, max_distance in {.5,.75,1,1.5,2,10} (three of them equal to a distance of the menu: 'not exceeding' is decided at equality); TopN and BestFit judged against the counting rules (also on streams with 1..40 tracks per query, N up to 10), results of tie-free streams required identical across orders; VisualVoting and Hungarian voting judged structurally (Hungarian: weights {absent, 0 (gated out, the query still appears), .2, .5, .9}; plus 2x2 matrices over weights 5 and 14 millionths apart in every arrival order); TopN / BestFit streams whose distances differ in the last bits of an f32 (weights 2e-7 apart) in every order. Non-trivial = at least two items.");
     let dmenu: Vec<Option<f32>> = vec![Some(0.25), Some(0.5), Some(1.0), Some(2.0), None];
     let params: Vec<(usize, usize, f32)> = {
         let mut p = vec![];
@@ -487,6 +487,40 @@ pub fn run(tier: Tier) -> Report {
                 }
             });
         }
+    }
+    // TopN / BestFit, near ties that are not ties: weights a few 1e-7 apart (distances that differ in the last
+    // bits of an f32) - the heavier claim wins, lists are ordered by the exact weights, in every stream order
+    {
+        let ds: Vec<f32> = vec![0.25, 0.2500002, 0.25000036, 0.5];
+        let mut kinds: Vec<Item> = vec![];
+        for q in 0..2u64 {
+            for t in 0..2u64 {
+                for d in &ds {
+                    kinds.push((QB + q, TB + t, Some(*d)));
+                }
+            }
+        }
+        // one far item fixes the largest distance seen
+        let far: Item = (QB + 2, TB + 5, Some(1.0));
+        let mut sets: Vec<Vec<usize>> = vec![];
+        for size in 2..=3usize {
+            multisets(kinds.len(), size, &mut |m| sets.push(m.to_vec()));
+        }
+        par_for(sets.len(), 64, |si| {
+            let mut items: Vec<Item> = sets[si].iter().map(|k| kinds[*k]).collect();
+            items.push(far);
+            for p in permutations(items.len()) {
+                let o: Vec<Item> = p.iter().map(|i| items[*i]).collect();
+                evals.fetch_add(2, Ordering::Relaxed);
+                let case = || json!({"engine":"topn/best","family":"near ties","items":o.iter().map(|(q,t,d)| json!([q,t,d])).collect::<Vec<_>>()});
+                if let Err((k, w)) = check_topn(&o, 2, 10.0, 1) {
+                    rep.violation(Violation { key: format!("{k}/near-tie"), what: w, replay: case() });
+                }
+                if let Err((k, w)) = check_best(&o, 10.0, 1) {
+                    rep.violation(Violation { key: format!("{k}/near-tie"), what: w, replay: case() });
+                }
+            }
+        });
     }
     // Hungarian, near ties that are not ties: 2x2 matrices over weights a few millionths apart (the voting weights
     // resolve one millionth), every arrival order: the better assignment is found in every order
